@@ -7,6 +7,10 @@ ids = [p["id"] for p in props]
 
 # id -> (technique, level text, level note, design ref)
 CLAIMED = {
+ "C20": ("enumeration of corpus pages and small page subsets + proptest-generated documents, imported in worker processes; oracle = page/operation equality, resource content equality with references followed, independent structural validation of the new file, sharing preserved",
+         "Generated-input search: every corpus page alone and in ordered pairs, and pages of generated documents (shared fonts/images/forms, object streams, encryption, private entries with reference cycles) are imported with one Importer, built and reloaded; boxes, rotation, operations and every resource the operations name must equal the source's (references followed, stream data compared, entries that only state a default ignored), the independent reader must find no dangling reference or bad stream length, shared source objects must stay shared, and the worker must not crash or time out.",
+         "comparison ignores entries that only spell out a specification default and treats one-element /Filter arrays as the single filter; imports the library refuses are outside the property",
+         "DESIGN.md §4 C20"),
  "C10": ("proptest-generated builder inputs; round-trip oracle through the library plus an independent strict reader as structural validator",
          "Generated-input search over page lists (0-6 pages, C08 operation sequences, boxes, rotation, font and graphics-state resources, extra entries) and information dictionaries built with PdfBuilder; the bytes are reloaded with the library (pages, boxes, rotation, extras, resources, operations, info compared with the input) and parsed by an independent reader that checks header, startxref, every xref entry against the object header, /Size, stream lengths and that no reference dangles.",
          "the independent reader is harness/src/engine/reader.rs (validated against the whole corpus and the harness writer)",
